@@ -722,13 +722,25 @@ func (ch *Channel) connectionActive(c *Connection, direction connectionDirection
 }
 
 func (ch *Channel) addConnectionToPeer(hostPort string, c *Connection, direction connectionDirection) {
-	p := ch.RootPeers().GetOrAdd(hostPort)
-	if err := p.addConnection(c, direction); err != nil {
-		c.log.WithFields(
-			LogField{"remoteHostPort", c.remotePeerInfo.HostPort},
-			LogField{"direction", direction},
-			ErrField(err),
-		).Warn("Failed to add connection to peer.")
+	var p *Peer
+	for {
+		p = ch.RootPeers().GetOrAdd(hostPort)
+		if err := p.addConnection(c, direction); err != nil {
+			c.log.WithFields(
+				LogField{"remoteHostPort", c.remotePeerInfo.HostPort},
+				LogField{"direction", direction},
+				ErrField(err),
+			).Warn("Failed to add connection to peer.")
+			break
+		}
+
+		// The peer may have lost its last connection, and been dropped from the
+		// root peer list, between GetOrAdd and addConnection. The connection
+		// must be registered with the peer that is in the list.
+		if cur, ok := ch.RootPeers().Get(hostPort); ok && cur == p {
+			break
+		}
+		p.dropConnection(c, direction)
 	}
 
 	ch.updatePeer(p)
